@@ -131,3 +131,24 @@ def writer_internals_missing():
     except AttributeError as e:
         return 'DiffXWriter internals renamed (%s)' % e
     return None
+
+
+def sym_meta(ctx, N):
+    """a JSON object with a symbolic string (1..N arbitrary code points: quotes, backslashes, controls, surrogates,
+    non-BMP) and a symbolic integer inside a concrete structure (keys concrete: sort_keys compares them)"""
+    from sx.core import sym_int
+    n = ctx.choose(1, N, 'meta.n')
+    t = sym_str(ctx, 'mt', n)
+    i = sym_int(ctx, 'mi', -1, 1)
+    shape = ctx.pick('meta.shape', ['flat', 'nested'])
+    if shape == 'flat':
+        return {'path': t, 'n': i}
+    return {'a': {'b': [t, i, None]}, 'z': t}
+
+
+def json_normal_form(md):
+    """what 'equal as a JSON value' means: the value after one trip through JSON text (a high surrogate directly
+    followed by a low one becomes one character -- behaviour of the json library, not of pydiffx)"""
+    import json
+    from sx import instrument
+    return instrument.h_call(json.loads, instrument.h_call(json.dumps, md))
